@@ -179,6 +179,19 @@ pub fn trace(args: &[String]) -> i32 {
         let genes = Value::Array(genes);
         let prog = translate(&genes);
         out.line(&json!({"ev": "parse", "run": run, "genes": genes, "prog": prog}));
+        // the printed form (Display of Plushy): tokens "i" / "{" / "}" separated by single spaces
+        if run % 4 == 0 {
+            let real: Vec<PushGene> = arr(&genes).iter().map(gene_from_json).collect();
+            let own: Vec<String> = real.iter().filter_map(|g| match g { PushGene::Instruction(i) => Some(i.to_string()), PushGene::Close => None }).collect();
+            if own.iter().all(|t| !t.contains(' ') && t != "{" && t != "}") {
+                let plushy: Plushy = real.into_iter().collect();
+                let text = plushy.to_string();
+                let tokens: Vec<&str> = if text.is_empty() { vec![] } else {
+                    text.split(' ').map(|w| match w { "{" => "{", "}" => "}", "" => "double-space", _ => "i" }).collect()
+                };
+                out.line(&json!({"ev": "render", "run": run, "genes": genes, "tokens": tokens}));
+            }
+        }
     }
     out.finish();
     0
